@@ -23,6 +23,29 @@ CHECKS.update({
          "Exhaustive over the finite domain named in the property (every FN, every listed delta, the whole carry chain including the wrap), C under ASan/UBSan; Python compared with the reference and with the C output for every FN.",
          "x86-64 clang build; sync.c linked with never-executed weak hardware stubs; reference decomposition is 4 lines of div/mod.", "3/C19"),
 })
+CHECKS.update({
+ "C02": ("exploration", "Hypothesis-generated application configurations + TRXC scripts + transmissions against a reference routing model (spec hopping), observed on an in-memory UDP double",
+         "Model-based generated-input search over configurations of 2..6 transceivers (children, extra parents, hopping coordinated as in a real cell, versions, mute) and bursts; every tick's datagram set must equal the model's recipient set exactly (both directions: nothing missing, nothing extra).",
+         "Trusts refs/trx_model.py + refs/ref_hop.py, FakeNet, harness-delivered ticks; untuned-but-running transceivers are not asserted.", "3/C02"),
+ "C03": ("exploration", "Hypothesis operation histories with per-burst outcome accounting (model), plus exhaustive enumeration of thread schedules (<=1/<=2 pre-emptions, line/opcode granularity) of socket-op vs clock-tick by a settrace interleaving explorer with a cooperative lock",
+         "Histories: every accepted burst must end in exactly one of transmitted-in-its-own-tick / stale report / discarded by POWEROFF, across wraps. Schedules: for each generated scenario ALL schedules within the pre-emption bound are executed on the real code with real threads; bounded by pre-emption count and by line/bytecode granularity.",
+         "CPython-level atomicity of single bytecodes / list.append; lock replaced by an interface-compatible cooperative lock; message codec frames are not pre-emption points (thread-local data).", "3/C03"),
+ "C04": ("exploration", "Hypothesis differential: Python encoder/decoder vs independent layout model; trxcon's unmodified trx_if.c (ASan/UBSan driver on a socketpair) vs Python in both directions",
+         "Generated valid messages must encode to exactly the layout model's octets; every accepted datagram (valid, mutated, glued) must be interpreted per the layout; v0 bursts cross the language boundary both ways and must keep fn/tn/rssi/toa/bits.",
+         "Trusts refs/ref_trxd.py and the libosmocore shim used to host trx_if.c.", "3/C04"),
+ "C05": ("exploration", "Hypothesis command histories against TrxModel (framing, status, results, effects incl. anchored state), plus trxcon round trip through unmodified trx_if.c",
+         "Model-based search over sequences of every verb/arg-count/boundary value to any transceiver from any source address; reply framing, status, results and the state effect are compared after every step; each command trxcon can emit is captured from the C code, answered by FakeTRX and fed back into trxcon's parser.",
+         "Trusts refs/trx_model.py (written from the docstrings/property text); statuses the property does not fix are not asserted.", "3/C05"),
+ "C10": ("exploration", "Hypothesis histories of simulation settings + typed/arbitrary bursts; datagram at the recipient decoded by the independent layout model and compared with the metadata model",
+         "Generated-input search over sender/recipient settings and burst contents (toolkit generator, harness-assembled from own training-sequence tables, arbitrary bits); bits, version, padding, RSSI/ToA/C-I windows, modulation and TSC are asserted per datagram.",
+         "Random windows asserted by membership only; AB TS3..7 / SB TS1..3 tables are a snapshot of the pinned tree.", "3/C10"),
+ "C12": ("exploration", "Hypothesis histories of power/tuning commands, clock ticks and bursts over generated parent/child configurations against TrxModel; start-up socket plan checked on FakeNet",
+         "Model-based search: running state of every transceiver, hopping reset, queue discard, clock-indication destinations, generator alive-ness and the bound-socket set are compared after every step.",
+         "Clock thread parked; ticks delivered by calling the generator at indication frames.", "3/C12"),
+ "C18": ("exploration", "Hypothesis histories of FAKE_DROP/RFMUTE/SETFORMAT interleaved with burst streams against a counter model (set-valued where the property is silent)",
+         "Model-based search; each burst must yield exactly burst / NOPE (v1, noise constants) / nothing (v0) per the counter, period filter and mute flags; invalid FAKE_DROP must be refused without state change.",
+         "Whether muted bursts consume drop budget is unspecified: both accepted.", "3/C18"),
+})
 NOT_YET = {}
 
 def main():
